@@ -1,7 +1,12 @@
 """C01 — batches apply atomically and exactly as the abstract index says."""
 import re
 
-GEN = False
+GEN = True             # go/extract/c01.go regenerates lean/BlugeGen/C01.lean: statement skeletons + classified facts of introduceSegment,
+                       # prepareSegment, Writer.Batch, Batch.Insert/Update/Delete, segmentSnapshot.Count/LiveSize, bluge.Writer.Insert/Update/Delete
+# the Gen obligations live in BlugeProofs.C01.Gen (not in BlugeProofs.C01, which C05 and C06 import: their builds must not
+# depend on the regenerated layer of C01)
+LAKE_TARGETS = ["BlugeProofs.C01", "BlugeProofs.C01.Gen", "drv_c01"]
+AUDIT_MODULES = ["BlugeProofs.C01", "BlugeProofs.C01.Gen"]
 STATELESS = False      # histories: 'case' blocks, shrunk by dropping batches
 # model branches (reported by the Lean driver on the replay of the REAL introductions) that a run must reach
 REQUIRED_BRANCHES = [
@@ -33,7 +38,10 @@ ASSUMPTIONS = [
     "beyond 'the reader shows the live documents of the root'; the reader's answers are compared with the abstract index on every step",
 ]
 TRUSTED = [
-    "hand-written model Bluge.Index (introduceSegment / introducePersist / introduceMerge / prepareSegment) tied by the correspondence stream `root`",
+    "hand-written model Bluge.Index (introduceSegment / introducePersist / introduceMerge / prepareSegment) tied by the correspondence stream `root` "
+    "and by the regenerated tables BlugeGen.C01 (gen_facts_match_model: 34 classified facts, gen_statements_match_model: statement skeletons; "
+    "expected tables annotated with the model line each fact justifies in lean/BlugeProofs/C01/Facts.lean)",
+    "the fact extractor go/extract/c01.go (go/parser + go/ast; refuses statement kinds it does not render)",
     "the correspondence harness go/harness/c01 and its trace hook index.SetVerifTrace (build tag verif)",
 ]
 
@@ -68,7 +76,9 @@ def signature(rec):
 LEVEL_TEXT = ("Lean 4 theorems about the writer-protocol model Bluge.Index: introduceSegment refines applyBatch for every obsoletes map "
               "(stale, partial), introducePersist and introduceMerge keep the abstract index, refinement of the abstract index by induction "
               "over all histories of batches, persists and merges (C01_refines), Count/lookup/match-all corollaries, uniqueness of "
-              "update-only ids; the model is tied to /repo by the correspondence stream `root`, which replays every root the real "
+              "update-only ids; the model is tied to /repo by the regenerated fact tables BlugeGen.C01 (introduceSegment, prepareSegment, Writer.Batch, "
+              "Batch.Insert/Update/Delete re-read from the working tree on every run and obliged to equal the tables the model was transcribed from) "
+              "and by the correspondence stream `root`, which replays every root the real "
               "introducer installs (physical segments, deleted bitmaps, stored fields) and every reader view over "
               "{fs,mem}x{ice v1,v2}x{safe,unsafe}")
 LEVEL_NOTE = ("trusted: Lean kernel + propext/Classical.choice/Quot.sound; the hand-written model Bluge.Index; the harness and its trace hook; "
